@@ -130,15 +130,15 @@ class ErrorFreeDetection(_c06.One):
     def shapes(self, tier):
         out = []
         for sh in _c06.One.shapes(self, tier):
-            if sh["deco"] != "plain":
-                continue
+            if sh["deco"] not in ("plain", "clips"):
+                continue  # clipped reads (soft and hard clips on both ends) are ordinary input of `whatshap phase`
             # C02 claims indels/MNPs with a reference only; overhang 0 is a `genotype`-only setting with known C06 findings
             if sh["mode"] == "realign" and sh["ov"] >= 1 or sh["mode"] == "cigar" and sh["kind"] == "snv":
                 out.append(sh)
         return out
 
     def bounds(self, tier):
-        return "as C06 `one` without decorations: " + _c06.One.bounds(self, tier) + "; restricted to re-alignment with overhang >= 1 (all variant kinds) and CIGAR-based detection of SNVs"
+        return "as C06 `one`, plain and clipped (H/S on both ends) CIGARs: " + _c06.One.bounds(self, tier) + "; restricted to re-alignment with overhang >= 1 (all variant kinds) and CIGAR-based detection of SNVs"
 
 
 class ErrorFreeSources(_c06._C06Base):
